@@ -419,11 +419,17 @@ pub fn execute(exe: &Path, sc: &BScenario, dir: &Path) -> BReport {
                 let after_l = (std::fs::read(&pl).ok(), mtime_ns(&pl));
                 let rewritten_y = after_y.0.is_some() && (after_y.1 != before_y.1 || after_y.0 != before_y.0);
                 let rewritten_l = after_l.0.is_some() && (after_l.1 != before_l.1 || after_l.0 != before_l.0);
+                // A short write *without* error is absorbed by `write_all`: it never makes a build
+                // fail and never leaves a partial file, so the model treats such a build as fault-free
+                // (outcome and outputs are compared with the clean build as usual).
+                let injected = fault;
+                let hard = fault.clone().filter(|f| f.0 != "short");
+                let fault = &hard;
                 let fault_fired = fault.is_some() && (crashed || !ok);
                 lh = fnv_add(lh, format!("{oi}|{ok}|{crashed}|{clean_ok}|{rewritten_y}|{rewritten_l}|{:?}|{:?}", after_y.0.as_ref().map(|b| norm_hash(b, dir)), after_l.0.as_ref().map(|b| norm_hash(b, dir))).as_bytes());
                 match fault {
                     Some((m, _)) if fault_fired => {
-                        *rep.probes.entry(if m == "crash" { "builds_crashed_mid_write" } else if m == "short" { "builds_failing_after_a_short_write" } else { "builds_with_short_write_error" }).or_insert(0) += 1;
+                        *rep.probes.entry(if m == "crash" { "builds_crashed_mid_write" } else { "builds_with_short_write_error" }).or_insert(0) += 1;
                         if after_y.0.is_some() && after_y.0 != std::fs::read(clean.join("g.y.rs")).ok() {
                             *rep.probes.entry("torn_or_partial_parser_output_left_on_disk").or_insert(0) += 1;
                         }
@@ -568,7 +574,7 @@ pub fn execute(exe: &Path, sc: &BScenario, dir: &Path) -> BReport {
                     (None, _) => 3,
                     (_, None) => 4,
                 };
-                rep.states.push(fnv(format!("{}|{}|{}|{:?}|{:?}|{flow}|{}|{}|{ok}|{:?}", gname.0, gname.1, lname, popts, lopts, rel(mtime_ns(&gy), mtime_ns(&py)), rel(mtime_ns(&gl), mtime_ns(&pl)), fault.as_ref().map(|f| f.0.clone())).as_bytes()));
+                rep.states.push(fnv(format!("{}|{}|{}|{:?}|{:?}|{flow}|{}|{}|{ok}|{:?}", gname.0, gname.1, lname, popts, lopts, rel(mtime_ns(&gy), mtime_ns(&py)), rel(mtime_ns(&gl), mtime_ns(&pl)), injected.as_ref().map(|f| f.0.clone())).as_bytes()));
             }
         }
     }
